@@ -69,6 +69,9 @@ def setting_unit(name, attr, default, valid, invalid, rel=ITERM, meta="ITerm2Ima
             parent = st.new("attrobj", {"@inherit": {}, attr: inhv})       # the nearest ancestor: must stay untouched
             eng.genv["type"] = Fn(lambda e, s, a, k, parent=parent: [(parent, s)])
             eng.oblige("instance-level-property-reuses-the-class-level-accessors", st, reuse, kind="post")
+            # the setting read through its own name inside the setter / deleter: the getter's body on that object
+            eng.attrs[("attrobj", name)] = lambda e, s, v, fget=fget: [(val_, _pop_env(s2)) for val_, s2 in
+                                                                     e.ev(fget.body, _with_env(e, s, {fget.args.args[0].arg: v}))]
             # ---- get
             s0 = st.fork()
             self_ = s0.new("attrobj", dict(fields))
@@ -106,6 +109,17 @@ def setting_unit(name, attr, default, valid, invalid, rel=ITERM, meta="ITerm2Ima
             obs += eng.obligations
         return obs
     return u
+
+
+def _with_env(e, s, binds):
+    s2 = e.fork(s)
+    s2.frames.append(dict(binds))
+    return s2
+
+
+def _pop_env(s):
+    s.frames.pop()
+    return s
 
 
 def val_exc(v):
